@@ -1,4 +1,4 @@
-"""C06 private key material never leaves: public export (and, via C03/C04's runs, produced objects)."""
+"""C06 private key material never leaves: public export and produced objects."""
 import collections
 import itertools
 import json
@@ -11,7 +11,7 @@ PROP_FILE = "Props/Properties_C06.v"
 LEVEL = "proof"
 ASSUMPTIONS = [
     "C06: export theorems are about objects without duplicate member names; JSON as immutable trees",
-    "C06: 'no produced JWS/JWE contains a private member, the content key or a password' is checked on the implementation by scanning every product of the C03/C04 correspondence runs (see those checks); that a ciphertext does not reveal a key is cryptography and not claimed",
+    "C06: 'no produced JWS/JWE/exchange result contains a private member, the content key or a password' is checked on the implementation by scanning, at every depth and inside encoded headers, every object produced in this run for all signature and key-management algorithms (function products); that a ciphertext does not reveal a key is cryptography and not claimed",
 ]
 
 PRIV = {"oct": ["k"], "RSA": ["d", "p", "q", "dp", "dq", "qi", "oth"], "EC": ["d"]}
@@ -139,10 +139,109 @@ def nontrivial(case, out):
     return out != "ERR" and ('"d"' in case or '"k"' in case or '"p"' in case)
 
 
+PRIVATE_NAMES = {"d", "p", "q", "dp", "dq", "qi", "oth", "k"}
+
+
+def scan_product(obj, secrets, path="$"):
+    """every member name and string value of a produced object, at any depth, also inside base64url-encoded JSON"""
+    import base64
+    bad = []
+    if isinstance(obj, dict):
+        for k, v in obj.items():
+            if k in PRIVATE_NAMES:
+                bad.append("member '%s' at %s" % (k, path))
+            bad += scan_product(v, secrets, path + "." + k)
+    elif isinstance(obj, list):
+        for i, v in enumerate(obj):
+            bad += scan_product(v, secrets, "%s[%d]" % (path, i))
+    elif isinstance(obj, str):
+        if obj in secrets and len(obj) >= 8:
+            bad.append("secret value of the key copied to %s" % path)
+        if obj[:2] == "ey":
+            try:
+                inner = json.loads(base64.urlsafe_b64decode(obj + "=" * (-len(obj) % 4)))
+                bad += scan_product(inner, secrets, path + "<decoded>")
+            except Exception:
+                pass
+    return bad
+
+
+def products(ctx, dist):
+    """objects the library PRODUCES with private keys in hand: signatures, encryptions for every key-management
+    algorithm (ECDH-ES ephemeral keys!), exchanges.  Returns the number of products scanned."""
+    import jwsgen as G
+    rep = ctx["rep"]
+    bdir = ctx["bdir"]
+    rnd = random.Random(ctx["seed"])
+    keys = G.standard_keys(bdir)
+    req, meta = [], []
+    pay = {"payload": G.b64(b"c06")}
+    for alg, kn in G.SIGN_KEY_FOR.items():
+        k = keys.get(kn)
+        if k:
+            req.append("jwssig\t%s\t%s\t%s" % (G.dumps(pay), G.dumps({"protected": {"alg": alg}}), G.dumps(k)))
+            meta.append(("sign " + alg, k))
+    for alg, n in (("HS256", 32), ("HS384", 48), ("HS512", 64)):
+        k = G.oct_key(rnd, n)
+        req.append("jwssig\t%s\t%s\t%s" % (G.dumps(pay), G.dumps({"protected": {"alg": alg}}), G.dumps(k)))
+        meta.append(("sign " + alg, k))
+    encs = ["A128GCM", "A256CBC-HS512"]
+    for wrap in G.SYM_WRAPS + G.PBES2 + G.EC_WRAPS + G.RSA_WRAPS:
+        for enc in encs:
+            for where in ("protected", "split", "none"):
+                cands = [keys.get(c) for c in ("P-256", "P-384", "P-521")] if wrap in G.EC_WRAPS else [G.wrap_key(rnd, keys, wrap, enc)]
+                for k in cands:
+                    if k is None:
+                        continue
+                    tmpl = G.jwe_template(wrap, enc, False, None, where=where)
+                    # the PRIVATE key is handed to the library on purpose: nothing of it may appear in the product
+                    req.append("jweenc\t%s\t-\t%s\t%s" % (G.dumps(tmpl), G.dumps(k), b"c06".hex()))
+                    meta.append(("encrypt %s/%s (%s)" % (wrap, enc, where), k))
+    # exchanges
+    for c in ("P-256", "P-384", "P-521"):
+        a = keys.get(c)
+        if a:
+            other = G.gen_keys(bdir, [{"kty": "EC", "crv": c, "key_ops": ["deriveKey"]}])[0]
+            if other:
+                req.append("exc\t%s\t%s" % (G.dumps(a), G.dumps(G.pub_of(G.strip_meta(other)))))
+                meta.append(("exchange " + c, a))
+                req.append("exc\t%s\t%s" % (G.dumps(a), G.dumps(G.strip_meta(other))))
+                meta.append(("exchange " + c + " (remote private too)", a))
+    outs = G.harness(bdir, req)
+    n = 0
+    for r, o, (what, k) in zip(req, outs, meta):
+        if o.startswith("CRASH"):
+            rep.violation("product-crash:" + what.split(" ")[0], "crash while producing: " + o[:200], {"case": r})
+            continue
+        if o == "ERR":
+            continue
+        try:
+            obj = json.loads(o.split("\t")[0].replace("MUTATED ", ""))
+        except Exception:
+            continue
+        n += 1
+        dist["product: " + what.split(" ")[0]] = dist.get("product: " + what.split(" ")[0], 0) + 1
+        secrets = {v for m, v in k.items() if m in PRIVATE_NAMES and isinstance(v, str)}
+        allowed_k = what.startswith("exchange") and False
+        bad = scan_product(obj, secrets)
+        if bad:
+            rep.violation("product-leaks-private:%s" % what.split(" (")[0], "%s: the produced object contains private material: %s" % (what, "; ".join(bad[:4])),
+                          {"case": r, "implementation": o[:1500]})
+    return n
+
+
 def correspond(ctx):
     cases, dist = gen(ctx["tier"], ctx["seed"])
+    nprod = products(ctx, dist)
+    st = standard_part(ctx, cases, dist)
+    st["evaluations"] += nprod
+    st["distinct_nontrivial"] += nprod
+    return st
+
+
+def standard_part(ctx, cases, dist):
     return runner.standard(
         ctx, cases, oracle, nontrivial,
-        rule="jose_jwk_pub on keys of the three types with every subset of private members present, extra members, key_ops variants (junk elements, duplicates, non-arrays), kty in four letter cases, nested in arrays and JWKSets of length 0..20, odd inputs of every JSON type; non-trivial = a private member was present and the export succeeded",
+        rule="(a) every object the library PRODUCES while holding private keys -- JWS for all 13 signature algorithms, JWE for all 20 key-management algorithms x 2 content algorithms x 3 header placements (ECDH-ES direct and +KW on three curves: the ephemeral key in the header), key exchanges -- scanned at every depth, also inside encoded headers, for private member names and for copies of the key's secret values; (b) jose_jwk_pub on keys of the three types with every subset of private members present, extra members, key_ops variants (junk elements, duplicates, non-arrays), kty in four letter cases, nested in arrays and JWKSets of length 0..20, odd inputs of every JSON type; non-trivial = a private member was present and the export succeeded",
         dist=dist,
         exhaustive_subspaces=["all subsets of present private members per key type (2^1, 2^7, 2^1) x 3 extra-member sets x 4 kty spellings (thorough tier: all of them; quick: 2500 sampled)"])
